@@ -134,6 +134,7 @@ func cmdCheck(args []string) int {
 		w.Finish(u.VC)
 		run.units = append(run.units, u)
 	}
+	run.units = append(run.units, w.StructuralUnit())
 	for _, l := range w.Lemmas {
 		u := w.VerifyLemma(l)
 		w.Finish(u.VC)
@@ -223,6 +224,9 @@ func cmdCheck(args []string) int {
 		}
 		// not discharged
 		why := fmt.Sprintf("status=%s answers=%s", r.Status, fmtAnswers(r.Answers))
+		if o.Note != "" {
+			why = o.Note
+		}
 		if unitOutside {
 			why = "function left the modelled subset: " + strings.Join(outsideUnits[o.Func], "; ")
 		}
@@ -398,6 +402,7 @@ func cmdLock() int {
 	for _, ip := range w.InitUnits() {
 		add(w.VerifyInit(ip))
 	}
+	add(w.StructuralUnit())
 	for _, l := range w.Lemmas {
 		add(w.VerifyLemma(l))
 	}
